@@ -248,6 +248,14 @@ def run_job(job, tier, seed):
             L = real.make_layout(s)
             common.gcall(res, check_blade_ops, L, rng, f"B{i}", 6 if tier == 'quick' else 25)
             common.gcall(res, check_join_meet, L, rng, f"B{i}", 6 if tier == 'quick' else 25)
+        # the same operations on layouts whose basis-vector ids are not 1..n in order (firstIdx = 0, permuted integers, strings) and on a
+        # blade order that is not the default one: nothing in the property depends on how the vectors are called or where blades are stored
+        alt = [real.make_layout([1, 1, 1], first=0), real.make_layout([1, 1, 1, 1], first=0), real.make_layout([1, 1, -1, 1], ids=[2, 4, 1, 3]),
+               real.make_layout([1, 1, 1], ids=['x', 'y', 'z']), real.make_layout([1, 1, 1, 1, 1], first=3),
+               real.make_layout([1, 1, 1], order=[0, 4, 2, 1, 6, 5, 3, 7])]
+        for i, L in enumerate(alt):
+            common.gcall(res, check_blade_ops, L, rng, f"A{i}", 4 if tier == 'quick' else 12)
+            common.gcall(res, check_join_meet, L, rng, f"A{i}", 3 if tier == 'quick' else 12)
         # the recorded finding, deterministically: Cl(2,2), spanning vectors (1,0,-1,0), (0,-3,-2,-3)
         import numpy as np
         L = real.make_layout([1, 1, -1, -1])
